@@ -17,7 +17,7 @@ import itertools
 
 DEFAULT_FEAT = dict(
     subtypes=True, constants=True, neg=True, equality=True, numeric=True, when=True, forall_eff=True,
-    or_pre=False, forall_pre=False, bare_pre=False,   # nested / quantified / unwrapped preconditions
+    or_pre=False, forall_pre=False, bare_pre=False, nested_numeric=False,   # nested / quantified / unwrapped preconditions
     cond_numeric=True,                       # numeric comparisons inside when/forall conditions
     child_first_types=False,                 # D10 finding profile
     repeated_call_objects=True, long_names=False,
@@ -171,9 +171,10 @@ def gen_lit(t, D, scope, f):
 def gen_conj(t, D, scope, f, top=False, depth=2):
     items = []
     # nested (or / forall) bodies are stored as Precondition objects whose hash/dedup goes through the simplifying
-    # printer; numeric comparisons inside them run into the simplifier's recorded defects already at parse time, so
-    # they are not generated there (that is C13's subject)
-    fn = dict(f, numeric=False)
+    # printer; numeric comparisons inside them run into the simplifier's defects already at parse time (TypeError /
+    # AttributeError from the symbolic layer: C13's and C01's subject, neither claimed), so they are not generated
+    # there unless feat["nested_numeric"] is set (no check sets it)
+    fn = f if f.get("nested_numeric") else dict(f, numeric=False)
     def lits(sc, n):
         return [x for x in (gen_lit(t, D, sc, fn) for _ in range(n)) if x]
 
